@@ -378,6 +378,16 @@ def check_chunk(res, N, bl, strand, a, b, cstrand):
         res.deviation("chunk->chunk", case, lib.canon_loc(o4[1]) if o4[0] == "ok" else o4[1], lib.canon_loc(R), sig="chunk-relift")
 
 
+    # a location that NAMES another chromosome (explicit chromosome parent with a different id) is not a location on this
+    # chunk's chromosome: refused, not answered with this chunk's coordinates
+    foreign = lib.mk_loc(bl, strand, Parent(id="chrOTHER", sequence_type="chromosome"))
+    o7 = lib.outcome(AbstractInterval.liftover_location_to_seq_chunk_parent, foreign, par)
+    res.trans()
+    res.note("chunk", "foreign-chromosome")
+    if o7[0] == "ok" and len(o7[1]) != 0:
+        res.deviation("liftover_location_to_seq_chunk_parent", dict(case, foreign=True), lib.canon_loc(o7[1]), "refusal (the location is on another chromosome)", sig="chunk-foreign-chromosome-answered")
+    elif o7[0] != "ok" and not lib.is_documented_exc(o7[2]):
+        res.deviation("liftover_location_to_seq_chunk_parent", dict(case, foreign=True), o7[1], "documented refusal", sig="chunk-foreign-chromosome-internal")
     # ... and onto the WHOLE chromosome: a parent that carries the chromosome sequence (the chunk's own chromosome level carries
     # none), and a sequence-less chromosome parent - same bases, chromosome coordinates, and the sequence where there is one
     from inscripta.biocantor.io.parser import seq_to_parent
@@ -511,10 +521,16 @@ def replay(case):
     return devs or res.deviations
 
 
+def _m_foreign_chromosome(d):
+    # the defect's own request (a location with an explicit chromosome parent of another id, lifted onto a chunk) and shape
+    # (answered with chunk coordinates as if it were on the chunk's chromosome)
+    return d["sig"] == "chunk-foreign-chromosome-answered" and d["case"].get("foreign") is True and d["case"].get("kind") == "chunk"
+
+
 def _m_lift_seq_noncontig(d):
     """lift_over_to_sequence re-checks contiguity at every level of the recursion: a contiguous location whose image
     on an intermediate level is split (multi-block placement) is refused with ValueError although the ancestor exists"""
     return d["sig"] == "lift-sequence-raises" and d["observed"] == "ValueError" and d.get("intermediate_noncontiguous") is True
 
 
-MATCHERS = {"c04_lift_seq_noncontig": _m_lift_seq_noncontig}
+MATCHERS = {"c04_lift_seq_noncontig": _m_lift_seq_noncontig, "c04_foreign_chromosome": _m_foreign_chromosome}
